@@ -148,6 +148,8 @@ class HB:
             return rawl(rng.choice(["", " ", "\t "]))
         k, n = self.deqs[-1] if rng.random() < 0.55 else rng.choice(self.deqs)
         j = rng.randrange(0, n) if (n > 0 and rng.random() < 0.9) else n
+        if rng.random() < 0.07:
+            return suffixed(ref(k, j), rng)
         return ref(k, j, pad=rng.random() < 0.06)
 
 
@@ -160,6 +162,11 @@ def ref(k, j=0, pad=False):
 
 def rawl(s):
     return {"raw": s}
+
+
+def suffixed(r, rng):
+    """an id nobody issued that begins with a real lease id (a client that glued two ids together, appended a marker, ...)"""
+    return dict(r, suffix=rng.choice(["-retry", "0", ",lease_0000000000000000", "\u0000", "_", "lease_"]))
 
 
 def edge(rng, x):
@@ -176,6 +183,8 @@ def frag_dup_ack(b, rng):
     k = b.dequeue(ttl=rng.choice([None, 600 * SEC]))
     b.tick(rng.choice([0, 1, MS]))
     b.ack(ref(k))
+    if rng.random() < 0.35:
+        b.ack(suffixed(ref(k), rng))       # not a duplicate of anything: an id that only begins like the one just acked
     b.tick(edge(rng, b.ttl))
     b.ack(ref(k, pad=rng.random() < 0.2))
     if rng.random() < 0.5:
@@ -319,6 +328,8 @@ def frag_batch(b, rng):
         mix.insert(rng.randrange(len(mix) + 1), rawl(rng.choice(["", "  "])))
     if rng.random() < 0.5:
         mix.insert(rng.randrange(len(mix) + 1), rawl("lease_x1"))
+    if rng.random() < 0.4:
+        mix.insert(rng.randrange(len(mix) + 1), suffixed(ids[rng.randrange(len(ids))], rng))
     if rng.random() < 0.3:
         mix[-1] = dict(mix[-1], pad=True)
     if old is not None:
